@@ -100,32 +100,35 @@ inductive V
   | obj (kvs : List (Str × V))
   deriving Repr
 
-/-- the schema fragment: own keywords plus the composition keywords `not`, `oneOf`, `anyOf`, `allOf` -/
+/-- the schema fragment: own keywords plus the composition keywords `not`, `oneOf`, `anyOf`, `allOf`, and the
+`default` keyword (a value; it plays no role in satisfaction, only in `visD` below) -/
 inductive RS
   | mk (ty : Option Ty) (nullable ro wo : Bool) (minLen : Nat) (max : Option Int)
        (props : List (Str × RS)) (required : List Str) (addl : Option Bool) (items : Option RS)
-       (nt : Option RS) (oneOf anyOf allOf : List RS)
+       (nt : Option RS) (oneOf anyOf allOf : List RS) (dflt : Option V)
   deriving Repr
 
 namespace RS
-def ty : RS → Option Ty | mk t _ _ _ _ _ _ _ _ _ _ _ _ _ => t
-def nullable : RS → Bool | mk _ n _ _ _ _ _ _ _ _ _ _ _ _ => n
-def ro : RS → Bool | mk _ _ r _ _ _ _ _ _ _ _ _ _ _ => r
-def wo : RS → Bool | mk _ _ _ w _ _ _ _ _ _ _ _ _ _ => w
-def minLen : RS → Nat | mk _ _ _ _ m _ _ _ _ _ _ _ _ _ => m
-def max : RS → Option Int | mk _ _ _ _ _ m _ _ _ _ _ _ _ _ => m
-def props : RS → List (Str × RS) | mk _ _ _ _ _ _ p _ _ _ _ _ _ _ => p
-def required : RS → List Str | mk _ _ _ _ _ _ _ r _ _ _ _ _ _ => r
-def addl : RS → Option Bool | mk _ _ _ _ _ _ _ _ a _ _ _ _ _ => a
-def items : RS → Option RS | mk _ _ _ _ _ _ _ _ _ i _ _ _ _ => i
-def nt : RS → Option RS | mk _ _ _ _ _ _ _ _ _ _ n _ _ _ => n
-def oneOf : RS → List RS | mk _ _ _ _ _ _ _ _ _ _ _ o _ _ => o
-def anyOf : RS → List RS | mk _ _ _ _ _ _ _ _ _ _ _ _ a _ => a
-def allOf : RS → List RS | mk _ _ _ _ _ _ _ _ _ _ _ _ _ a => a
+def ty : RS → Option Ty | mk t _ _ _ _ _ _ _ _ _ _ _ _ _ _ => t
+def nullable : RS → Bool | mk _ n _ _ _ _ _ _ _ _ _ _ _ _ _ => n
+def ro : RS → Bool | mk _ _ r _ _ _ _ _ _ _ _ _ _ _ _ => r
+def wo : RS → Bool | mk _ _ _ w _ _ _ _ _ _ _ _ _ _ _ => w
+def minLen : RS → Nat | mk _ _ _ _ m _ _ _ _ _ _ _ _ _ _ => m
+def max : RS → Option Int | mk _ _ _ _ _ m _ _ _ _ _ _ _ _ _ => m
+def props : RS → List (Str × RS) | mk _ _ _ _ _ _ p _ _ _ _ _ _ _ _ => p
+def required : RS → List Str | mk _ _ _ _ _ _ _ r _ _ _ _ _ _ _ => r
+def addl : RS → Option Bool | mk _ _ _ _ _ _ _ _ a _ _ _ _ _ _ => a
+def items : RS → Option RS | mk _ _ _ _ _ _ _ _ _ i _ _ _ _ _ => i
+def nt : RS → Option RS | mk _ _ _ _ _ _ _ _ _ _ n _ _ _ _ => n
+def oneOf : RS → List RS | mk _ _ _ _ _ _ _ _ _ _ _ o _ _ _ => o
+def anyOf : RS → List RS | mk _ _ _ _ _ _ _ _ _ _ _ _ a _ _ => a
+def allOf : RS → List RS | mk _ _ _ _ _ _ _ _ _ _ _ _ _ a _ => a
+/-- the `default` keyword (`none`: no default or `default: null`, which Go reads as a nil `Default`) -/
+def dflt : RS → Option V | mk _ _ _ _ _ _ _ _ _ _ _ _ _ _ d => d
 /-- a schema without composition keywords -/
 def leaf (ty : Option Ty) (nullable ro wo : Bool) (minLen : Nat) (max : Option Int)
     (props : List (Str × RS)) (required : List Str) (addl : Option Bool) (items : Option RS) : RS :=
-  mk ty nullable ro wo minLen max props required addl items none [] [] []
+  mk ty nullable ro wo minLen max props required addl items none [] [] [] none
 end RS
 
 instance : Inhabited V := ⟨.null⟩
@@ -186,15 +189,15 @@ mutual
 /-- `visitJSON` of schema and sub-schemas on ONE value: `isNull` tells whether the value is null, `own s` is the
 verdict of the type-specific visitor of `s` on the value (`visitJSONNull` for null: `s.nullable`) -/
 def comp (isNull : Bool) (own : RS → Bool) : RS → Bool
-  | .mk ty nullable ro wo ml mx props req addl items nt oneOf anyOf allOf =>
+  | .mk ty nullable ro wo ml mx props req addl items nt oneOf anyOf allOf dflt =>
     if isNull && nullable then true
-    else if isEmptyLeaf (.mk ty nullable ro wo ml mx props req addl items nt oneOf anyOf allOf) then !isNull
+    else if isEmptyLeaf (.mk ty nullable ro wo ml mx props req addl items nt oneOf anyOf allOf dflt) then !isNull
     else compNot isNull own nt &&
          (oneOf.isEmpty || compCount isNull own oneOf == 1) &&
          (anyOf.isEmpty || compAny isNull own anyOf) &&
          compAll isNull own allOf &&
          (if isNull && !(oneOf.isEmpty && anyOf.isEmpty && allOf.isEmpty) then true
-          else own (.mk ty nullable ro wo ml mx props req addl items nt oneOf anyOf allOf))
+          else own (.mk ty nullable ro wo ml mx props req addl items nt oneOf anyOf allOf dflt))
 /-- `visitNotOperation` -/
 def compNot (isNull : Bool) (own : RS → Bool) : Option RS → Bool
   | none => true
@@ -248,9 +251,9 @@ def visit (exro : Bool) (s : RS) (v : V) : Bool := visitV exro v s
 mutual
 /-- the schema with every `writeOnly` flag cleared (used to state that write-only plays no role in requests) -/
 def RS.clearWO : RS → RS
-  | .mk t n r _ ml mx props req a items nt oneOf anyOf allOf =>
+  | .mk t n r _ ml mx props req a items nt oneOf anyOf allOf dflt =>
     .mk t n r false ml mx (clearWOProps props) req a (clearWOOpt items) (clearWOOpt nt)
-      (clearWOList oneOf) (clearWOList anyOf) (clearWOList allOf)
+      (clearWOList oneOf) (clearWOList anyOf) (clearWOList allOf) dflt
 def clearWOProps : List (Str × RS) → List (Str × RS)
   | [] => []
   | (k, p) :: r => (k, p.clearWO) :: clearWOProps r
@@ -270,7 +273,7 @@ A non-null value satisfies `s` iff it satisfies the own keywords, is rejected by
 one `oneOf` member, some `anyOf` member and every `allOf` member. `null` is admitted where the schema is
 nullable, or (the library's documented reading of OAS 3.0) where compositions are present and admit it. -/
 def SatC (isNull : Bool) (Own : RS → Prop) : RS → Prop
-  | .mk ty nullable ro wo ml mx props req addl items nt oneOf anyOf allOf =>
+  | .mk ty nullable ro wo ml mx props req addl items nt oneOf anyOf allOf dflt =>
     if isNull then
       nullable = true ∨
         ((oneOf ≠ [] ∨ anyOf ≠ [] ∨ allOf ≠ []) ∧
@@ -278,7 +281,7 @@ def SatC (isNull : Bool) (Own : RS → Prop) : RS → Prop
           SatAll isNull Own allOf)
     else
       SatNot isNull Own nt ∧ (oneOf = [] ∨ SatOne isNull Own oneOf) ∧ (anyOf = [] ∨ SatAny isNull Own anyOf) ∧
-      SatAll isNull Own allOf ∧ Own (.mk ty nullable ro wo ml mx props req addl items nt oneOf anyOf allOf)
+      SatAll isNull Own allOf ∧ Own (.mk ty nullable ro wo ml mx props req addl items nt oneOf anyOf allOf dflt)
 def SatNot (isNull : Bool) (Own : RS → Prop) : Option RS → Prop
   | none => True
   | some n => ¬ SatC isNull Own n
@@ -336,7 +339,7 @@ def SatReq (exro : Bool) (s : RS) (v : V) : Prop := SatV exro v s
 mutual
 /-- executable twin of `SatC` (no shortcuts, clause by clause) -/
 def satCB (isNull : Bool) (own : RS → Bool) : RS → Bool
-  | .mk ty nullable ro wo ml mx props req addl items nt oneOf anyOf allOf =>
+  | .mk ty nullable ro wo ml mx props req addl items nt oneOf anyOf allOf dflt =>
     if isNull then
       nullable ||
         (!(oneOf.isEmpty && anyOf.isEmpty && allOf.isEmpty) &&
@@ -345,7 +348,7 @@ def satCB (isNull : Bool) (own : RS → Bool) : RS → Bool
     else
       satNotB isNull own nt && (oneOf.isEmpty || satCountB isNull own oneOf == 1) &&
       (anyOf.isEmpty || satAnyB isNull own anyOf) && satAllB isNull own allOf &&
-      own (.mk ty nullable ro wo ml mx props req addl items nt oneOf anyOf allOf)
+      own (.mk ty nullable ro wo ml mx props req addl items nt oneOf anyOf allOf dflt)
 def satNotB (isNull : Bool) (own : RS → Bool) : Option RS → Bool
   | none => true
   | some n => !satCB isNull own n
@@ -384,13 +387,330 @@ mutual
 /-- a structural measure over the composition keywords; its generated induction principle is the induction
 over "schema and composition members" used by the lemmas -/
 def cdepth : RS → Nat
-  | .mk _ _ _ _ _ _ _ _ _ _ nt oneOf anyOf allOf => 1 + cdepthO nt + cdepthL oneOf + cdepthL anyOf + cdepthL allOf
+  | .mk _ _ _ _ _ _ _ _ _ _ nt oneOf anyOf allOf _ => 1 + cdepthO nt + cdepthL oneOf + cdepthL anyOf + cdepthL allOf
 def cdepthO : Option RS → Nat
   | none => 0
   | some s => cdepth s
 def cdepthL : List RS → Nat
   | [] => 0
   | s :: r => cdepth s + cdepthL r
+end
+
+/-! ### `visitJSON` with `DefaultsSet` installed (`Options.SkipSettingDefaults = false`, the default of openapi3filter)
+
+With `DefaultsSet` the validator **mutates** the decoded value while it validates it: at the head of
+`visitJSONObject` every declared property whose key is absent and whose schema has a (non-nil) `default` receives a
+deep copy of that default — unless the property is read-only in a request (`reqRO`); the injected value is then
+visited like any other member (so a default is itself validated, and completed by its own nested defaults).
+`allOf` members run on the value one after the other (each sees what the earlier ones injected, and so do the
+schema's own keywords, which come last); every `oneOf` / `anyOf` member runs on its own deep copy, and the matched
+member (the only one / the first one) is run again on the value itself.
+
+`visD ds exro s v = none` — rejected; `some v'` — accepted, `v'` is the value afterwards. Structural recursion
+over the schema (an injected default comes out of the schema, not out of the value). The partial mutations of a
+*failing* visit are never seen — except below `not` (where the failing visit is the good case): defaults below
+`not` are outside this model (`dfltUnderNot`, `unmodelled`). -/
+
+def guardV (b : Bool) (v : V) : Option V := if b then some v else none
+
+def setKey (k : Str) (v : V) : List (Str × V) → List (Str × V)
+  | [] => [(k, v)]
+  | (k', v') :: r => if k = k' then (k, v) :: r else (k', v') :: setKey k v r
+
+/-- `reqRO := settings.asreq && propSchema.Value.ReadOnly && !settings.readOnlyValidationDisabled` -/
+def reqRO (exro : Bool) (p : RS) : Bool := p.ro && !exro
+
+/-- the default an absent property receives: none for a property that is read-only in a request
+(`dflt != nil && !reqRO && !repWO`; `repWO` is false in a request) -/
+def dfltFor (exro : Bool) (p : RS) : Option V := if reqRO exro p then none else p.dflt
+
+/-- the injection loop at the head of `visitJSONObject` (`_, present := value[propName]; !present`: since repair
+c740938 a key that is present with the value null is left alone) -/
+def inject (exro : Bool) : List (Str × RS) → List (Str × V) → List (Str × V)
+  | [], kvs => kvs
+  | (k, p) :: r, kvs =>
+    inject exro r (match lookup k kvs, dfltFor exro p with
+                   | none, some d => kvs ++ [(k, d)]
+                   | _, _ => kvs)
+
+/-- some property receives its default (`settings.onceSettingDefaults.Do(settings.defaultsSet)` fires) -/
+def injects (exro : Bool) (props : List (Str × RS)) (kvs : List (Str × V)) : Bool :=
+  props.any fun kp => (lookup kp.1 kvs).isNone && (dfltFor exro kp.2).isSome
+
+/-- the members `visitJSONObject` works on: after the injection loop when `DefaultsSet` is installed -/
+def injD (ds exro : Bool) (props : List (Str × RS)) (kvs : List (Str × V)) : List (Str × V) :=
+  if ds then inject exro props kvs else kvs
+
+/-- undeclared keys need `additionalProperties` -/
+def addlOKD (s : RS) (kvs : List (Str × V)) : Bool :=
+  kvs.all fun kv => (lookup kv.1 s.props).isSome || s.addl != some false
+
+/-- one declared property: visited when its key is present; the visit may complete the member -/
+def propStep (k : Str) (f : V → Option V) (kvs : List (Str × V)) : Option (List (Str × V)) :=
+  match lookup k kvs with
+  | none => some kvs
+  | some x => (f x).map fun x' => setKey k x' kvs
+
+def mapOpt (f : V → Option V) : List V → Option (List V)
+  | [] => some []
+  | x :: xs => (f x).bind fun y => (mapOpt f xs).map fun ys => y :: ys
+
+/-- `ok == 1` -/
+def pickOne : List V → Option V
+  | [x] => some x
+  | _ => none
+
+/-- the type-specific visitors; `fProps` / `fItems` visit the (declared, present) members / the items -/
+def ownK (ds exro : Bool) (s : RS) (fProps : List (Str × V) → Option (List (Str × V)))
+    (fItems : List V → Option (List V)) : V → Option V
+  | .null => guardV s.nullable .null
+  | .bool b => guardV (ownBool s) (.bool b)
+  | .int n => guardV (ownInt n s) (.int n)
+  | .half n => guardV (ownHalf n s) (.half n)
+  | .str t => guardV (ownStr t s) (.str t)
+  | .arr xs => if permits s.ty .array then (fItems xs).map .arr else none
+  | .obj kvs =>
+    if permits s.ty .object && roLoopOK exro s.props (keys (injD ds exro s.props kvs)) &&
+       addlOKD s (injD ds exro s.props kvs) && requiredOK s (keys (injD ds exro s.props kvs))
+    then (fProps (injD ds exro s.props kvs)).map .obj else none
+
+/-- `visitJSON` of one schema, given the visitors of its parts (same order as `comp`) -/
+def compK (s : RS) (v : V) (fNot : V → Bool) (fOne fAny : V → List V) (fAll : V → Option V)
+    (fOwn : V → Option V) : Option V :=
+  if v.isNull && s.nullable then some v
+  else if isEmptyLeaf s then (if v.isNull then none else some v)
+  else if !fNot v then none
+  else (if s.oneOf.isEmpty then some v else pickOne (fOne v)).bind fun v1 =>
+       (if s.anyOf.isEmpty then some v1 else (fAny v1).head?).bind fun v2 =>
+       (fAll v2).bind fun v3 =>
+       if v3.isNull && hasComp s then some v3 else fOwn v3
+
+mutual
+def visD (ds exro : Bool) : RS → V → Option V
+  | .mk ty n r w ml mx props req a items nt oneOf anyOf allOf dflt => fun v =>
+    compK (.mk ty n r w ml mx props req a items nt oneOf anyOf allOf dflt) v
+      (visNot ds exro nt) (visMatches ds exro oneOf) (visMatches ds exro anyOf) (visAll ds exro allOf)
+      (ownK ds exro (.mk ty n r w ml mx props req a items nt oneOf anyOf allOf dflt)
+        (visProps ds exro props) (visItems ds exro items))
+/-- `visitNotOperation`: passes iff the schema under `not` rejects -/
+def visNot (ds exro : Bool) : Option RS → V → Bool
+  | none => fun _ => true
+  | some x => fun v => (visD ds exro x v).isNone
+/-- the results of the members that accept, each on its own deep copy -/
+def visMatches (ds exro : Bool) : List RS → V → List V
+  | [] => fun _ => []
+  | x :: r => fun v => (visD ds exro x v).toList ++ visMatches ds exro r v
+/-- `allOf`: the members run on the value one after the other -/
+def visAll (ds exro : Bool) : List RS → V → Option V
+  | [] => fun v => some v
+  | x :: r => fun v => (visD ds exro x v).bind (visAll ds exro r)
+/-- the declared properties that are present, each visited with its schema -/
+def visProps (ds exro : Bool) : List (Str × RS) → List (Str × V) → Option (List (Str × V))
+  | [] => fun kvs => some kvs
+  | (k, p) :: r => fun kvs => (propStep k (visD ds exro p) kvs).bind (visProps ds exro r)
+def visItems (ds exro : Bool) : Option RS → List V → Option (List V)
+  | none => fun xs => some xs
+  | some it => fun xs => mapOpt (visD ds exro it) xs
+end
+
+/-! #### does a default fire? (`defaultsSet` is called: the body will be re-encoded)
+
+Over-approximation by full traversal: every member of `oneOf`, the members of `anyOf` up to the first match, the
+members of `allOf` as long as they pass, every declared present property and every item — whether the visit
+passes or not (the deep copies are thrown away, the flag is not). -/
+
+def firesOwn (exro : Bool) (s : RS) (fProps : List (Str × V) → Bool) (fItems : List V → Bool) : V → Bool
+  | .obj kvs => permits s.ty .object && (injects exro s.props kvs || fProps (inject exro s.props kvs))
+  | .arr xs => permits s.ty .array && fItems xs
+  | _ => false
+
+def firesPropStep (k : Str) (fF : V → Bool) (fV : V → Option V) (kvs : List (Str × V))
+    (rest : List (Str × V) → Bool) : Bool :=
+  match lookup k kvs with
+  | none => rest kvs
+  | some x => fF x || rest (match fV x with | some x' => setKey k x' kvs | none => kvs)
+
+def firesAllStep (fired : Bool) (res : Option V) (rest : V → Bool) : Bool :=
+  fired || (match res with | some v' => rest v' | none => false)
+
+def firesK (s : RS) (v : V) (fNot : V → Bool) (fOne fAny : V → List V) (fAll : V → Option V)
+    (gNot gOne gAny gAll gOwn : V → Bool) : Bool :=
+  if v.isNull && s.nullable then false
+  else if isEmptyLeaf s then false
+  else gNot v || (fNot v &&
+    (gOne v ||
+      match (if s.oneOf.isEmpty then some v else pickOne (fOne v)) with
+      | none => false
+      | some v1 => gAny v1 ||
+        match (if s.anyOf.isEmpty then some v1 else (fAny v1).head?) with
+        | none => false
+        | some v2 => gAll v2 ||
+          match fAll v2 with
+          | none => false
+          | some v3 => if v3.isNull && hasComp s then false else gOwn v3))
+
+mutual
+def firesD (exro : Bool) : RS → V → Bool
+  | .mk ty n r w ml mx props req a items nt oneOf anyOf allOf dflt => fun v =>
+    firesK (.mk ty n r w ml mx props req a items nt oneOf anyOf allOf dflt) v
+      (visNot true exro nt) (visMatches true exro oneOf) (visMatches true exro anyOf) (visAll true exro allOf)
+      (firesNot exro nt) (firesAny exro oneOf) (firesUpto exro anyOf) (firesAll exro allOf)
+      (firesOwn exro (.mk ty n r w ml mx props req a items nt oneOf anyOf allOf dflt)
+        (firesProps exro props) (firesItems exro items))
+def firesNot (exro : Bool) : Option RS → V → Bool
+  | none => fun _ => false
+  | some x => fun v => firesD exro x v
+def firesAny (exro : Bool) : List RS → V → Bool
+  | [] => fun _ => false
+  | x :: r => fun v => firesD exro x v || firesAny exro r v
+def firesUpto (exro : Bool) : List RS → V → Bool
+  | [] => fun _ => false
+  | x :: r => fun v => firesD exro x v || ((visD true exro x v).isNone && firesUpto exro r v)
+def firesAll (exro : Bool) : List RS → V → Bool
+  | [] => fun _ => false
+  | x :: r => fun v => firesAllStep (firesD exro x v) (visD true exro x v) (firesAll exro r)
+def firesProps (exro : Bool) : List (Str × RS) → List (Str × V) → Bool
+  | [] => fun _ => false
+  | (k, p) :: r => fun kvs => firesPropStep k (firesD exro p) (visD true exro p) kvs (firesProps exro r)
+def firesItems (exro : Bool) : Option RS → List V → Bool
+  | none => fun _ => false
+  | some it => fun xs => xs.any (firesD exro it)
+end
+
+/-! #### well-formedness (keys of Go maps are distinct) and syntactic classes of schemas -/
+
+def nodupKeys : List Str → Bool
+  | [] => true
+  | k :: r => !r.contains k && nodupKeys r
+
+mutual
+/-- object keys are distinct at every depth -/
+def V.wf : V → Bool
+  | .arr xs => V.wfL xs
+  | .obj kvs => nodupKeys (keys kvs) && V.wfKV kvs
+  | _ => true
+def V.wfL : List V → Bool
+  | [] => true
+  | x :: r => x.wf && V.wfL r
+def V.wfKV : List (Str × V) → Bool
+  | [] => true
+  | (_, x) :: r => x.wf && V.wfKV r
+end
+
+def wfDflt : Option V → Bool
+  | none => true
+  | some d => d.wf
+
+mutual
+/-- property names are distinct in every `properties` map, defaults are well-formed values -/
+def RS.wf : RS → Bool
+  | .mk _ _ _ _ _ _ props _ _ items nt oneOf anyOf allOf dflt =>
+    nodupKeys (keys props) && wfProps props && wfOpt items && wfOpt nt && wfList oneOf && wfList anyOf &&
+    wfList allOf && wfDflt dflt
+def wfProps : List (Str × RS) → Bool
+  | [] => true
+  | (_, p) :: r => p.wf && wfProps r
+def wfOpt : Option RS → Bool
+  | none => true
+  | some s => s.wf
+def wfList : List RS → Bool
+  | [] => true
+  | s :: r => s.wf && wfList r
+end
+
+mutual
+/-- a `default` occurs somewhere in the schema -/
+def hasDflt : RS → Bool
+  | .mk _ _ _ _ _ _ props _ _ items nt oneOf anyOf allOf dflt =>
+    dflt.isSome || hasDfltP props || hasDfltO items || hasDfltO nt || hasDfltL oneOf || hasDfltL anyOf || hasDfltL allOf
+def hasDfltP : List (Str × RS) → Bool
+  | [] => false
+  | (_, p) :: r => hasDflt p || hasDfltP r
+def hasDfltO : Option RS → Bool
+  | none => false
+  | some s => hasDflt s
+def hasDfltL : List RS → Bool
+  | [] => false
+  | s :: r => hasDflt s || hasDfltL r
+end
+
+mutual
+/-- a `default` occurs below a `not` (outside the model of `visD`: the partial mutations of the failing visit
+below `not` stay in the value) -/
+def dfltUnderNot : RS → Bool
+  | .mk _ _ _ _ _ _ props _ _ items nt oneOf anyOf allOf _ =>
+    hasDfltO nt || dfltUnderNotP props || dfltUnderNotO items || dfltUnderNotO nt || dfltUnderNotL oneOf ||
+    dfltUnderNotL anyOf || dfltUnderNotL allOf
+def dfltUnderNotP : List (Str × RS) → Bool
+  | [] => false
+  | (_, p) :: r => dfltUnderNot p || dfltUnderNotP r
+def dfltUnderNotO : Option RS → Bool
+  | none => false
+  | some s => dfltUnderNot s
+def dfltUnderNotL : List RS → Bool
+  | [] => false
+  | s :: r => dfltUnderNot s || dfltUnderNotL r
+end
+
+mutual
+/-- no composition keyword anywhere in the schema -/
+def compFree : RS → Bool
+  | .mk _ _ _ _ _ _ props _ _ items nt oneOf anyOf allOf _ =>
+    nt.isNone && oneOf.isEmpty && anyOf.isEmpty && allOf.isEmpty && compFreeP props && compFreeO items
+def compFreeP : List (Str × RS) → Bool
+  | [] => true
+  | (_, p) :: r => compFree p && compFreeP r
+def compFreeO : Option RS → Bool
+  | none => true
+  | some s => compFree s
+end
+
+/-- the properties of one object schema that can receive a default: the default is accepted by the property's own
+schema (read as a request, itself completed), and the property is not listed in `required` -/
+def dfltsHarmlessHere (exro : Bool) (props : List (Str × RS)) (required : List Str)
+    (accepts : RS → V → Bool) : Bool :=
+  props.all fun kp =>
+    match dfltFor exro kp.2 with
+    | none => true
+    | some d => accepts kp.2 d && !required.contains kp.1
+
+mutual
+/-- **defaults cannot change the verdict** (composition-free schemas): every default that can be injected, at any
+depth, conforms to its own schema and belongs to a property that is not required -/
+def dfltsHarmless (exro : Bool) : RS → Bool
+  | .mk _ _ _ _ _ _ props req _ items _ _ _ _ _ =>
+    dfltsHarmlessHere exro props req (fun p d => (visD true exro p d).isSome) &&
+    dfltsHarmlessP exro props && dfltsHarmlessO exro items
+def dfltsHarmlessP (exro : Bool) : List (Str × RS) → Bool
+  | [] => true
+  | (_, p) :: r => dfltsHarmless exro p && dfltsHarmlessP exro r
+def dfltsHarmlessO (exro : Bool) : Option RS → Bool
+  | none => true
+  | some s => dfltsHarmless exro s
+end
+
+/-- where the request-side reading of the property text decides the verdict also under default-setting: no
+default fires on this value, or the schema is composition-free with harmless defaults -/
+def defaultsNeutral (exro : Bool) (s : RS) (v : V) : Bool :=
+  !firesD exro s v || (compFree s && dfltsHarmless exro s)
+
+mutual
+/-- a `default` at nesting depth ≥ 2 of an object schema (below a property or an item, looking through
+composition members) -/
+def nestedDflt : RS → Bool
+  | .mk _ _ _ _ _ _ props _ _ items nt oneOf anyOf allOf _ =>
+    nestedDfltP props || hasDfltO items || nestedDfltO nt || nestedDfltL oneOf || nestedDfltL anyOf || nestedDfltL allOf
+def nestedDfltP : List (Str × RS) → Bool
+  | [] => false
+  | (_, p) :: r =>
+    hasDfltP p.props || hasDfltO p.items || hasDfltO p.nt || hasDfltL p.oneOf || hasDfltL p.anyOf || hasDfltL p.allOf ||
+    nestedDfltP r
+def nestedDfltO : Option RS → Bool
+  | none => false
+  | some s => nestedDflt s
+def nestedDfltL : List RS → Bool
+  | [] => false
+  | s :: r => nestedDflt s || nestedDfltL r
 end
 
 /-! ### Decoders -/
@@ -607,12 +927,12 @@ mutual
 /-- `decodeValue` with its composition branches (in the code's order: allOf, anyOf, oneOf, not, type):
 `none` = error, `some .null` = nil value -/
 def decodePropC (fields : List (Str × List Str)) (name : Str) (e : Option Enc) : RS → Option V
-  | .mk ty n r w ml mx props req a items nt oneOf anyOf allOf =>
+  | .mk ty n r w ml mx props req a items nt oneOf anyOf allOf dflt =>
     if !allOf.isEmpty then decAll fields name e allOf .null
     else if !anyOf.isEmpty then some (decAny fields name e anyOf)
     else if !oneOf.isEmpty then some (decOne fields name e oneOf .null)
     else if nt.isSome then none          -- "not implemented: decoding 'not'"
-    else decodeFormProp fields name (.mk ty n r w ml mx props req a items nt oneOf anyOf allOf) e
+    else decodeFormProp fields name (.mk ty n r w ml mx props req a items nt oneOf anyOf allOf dflt) e
 /-- allOf: every member decodes the same field; the loop stops at a nil value or an error; the LAST value counts -/
 def decAll (fields : List (Str × List Str)) (name : Str) (e : Option Enc) : List RS → V → Option V
   | [], acc => some acc
@@ -668,7 +988,7 @@ mutual
 /-- the property declarations in the order `decodeSchemaConstructs` meets them: the members of `allOf`, `anyOf`,
 `oneOf` first (recursively), then the schema's own properties; all with the same `encFn` -/
 def flatDecls : RS → List (Str × RS)
-  | .mk _ _ _ _ _ _ props _ _ _ _ oneOf anyOf allOf =>
+  | .mk _ _ _ _ _ _ props _ _ _ _ oneOf anyOf allOf _ =>
     flatDeclsL allOf ++ flatDeclsL anyOf ++ flatDeclsL oneOf ++ props
 def flatDeclsL : List RS → List (Str × RS)
   | [] => []
@@ -716,10 +1036,10 @@ def declOK (p : RS) : Bool :=
 mutual
 /-- … or a composition of such declarations (property-level allOf / anyOf / oneOf / not, any depth) -/
 def declOKC : RS → Bool
-  | .mk ty n r w ml mx props req a items nt oneOf anyOf allOf =>
+  | .mk ty n r w ml mx props req a items nt oneOf anyOf allOf dflt =>
     if !(allOf.isEmpty && anyOf.isEmpty && oneOf.isEmpty && nt.isNone) then
       declOKL allOf && declOKL anyOf && declOKL oneOf
-    else declOK (.mk ty n r w ml mx props req a items nt oneOf anyOf allOf)
+    else declOK (.mk ty n r w ml mx props req a items nt oneOf anyOf allOf dflt)
 def declOKL : List RS → Bool
   | [] => true
   | x :: r => declOKC x && declOKL r
@@ -841,6 +1161,7 @@ inductive Outcome
   | badCT          -- "header Content-Type has unexpected value"
   | decodeErr      -- "failed to decode request body"
   | schemaErr      -- "doesn't match schema"
+  | rewriteErr     -- "rewriting failed" (defaults were set, no body encoder for the media type)
   | panic
   | unmodelled
   deriving DecidableEq, Repr
@@ -861,6 +1182,38 @@ def validateRequestBody (reg : List (Str × DecK)) (rb : ReqBody) (ct : Str) (b 
         | .panic => .panic
         | .unmodelled => .unmodelled
         | .val v => if visit exro s v then .ok else .schemaErr
+
+/-- a body encoder is registered for the media type of the decoder (`bodyEncoders` of req_resp_encoder.go: exactly
+the media types decoded by `JSONBodyDecoder`; `Props/C06.lean` ties this to the regenerated table) -/
+def hasEncoder : Option DecK → Bool
+  | some .json => true
+  | _ => false
+
+/-- the last part of `ValidateRequestBody`: `VisitJSON(value, VisitAsRequest(), DefaultsSet(..)?, …)`, then — when
+a default was set — `encodeBody(value, mediaType)`. `ds` = `!Options.SkipSettingDefaults`; `enc` = an encoder exists.
+Without `DefaultsSet` the validator is the one of `visit`. -/
+def validateValue (enc exro ds : Bool) (s : RS) (v : V) : Outcome :=
+  if !ds then (if visit exro s v then .ok else .schemaErr)
+  else if dfltUnderNot s || (!enc && nestedDflt s) then .unmodelled
+  else match visD true exro s v with
+    | none => .schemaErr
+    | some _ => if firesD exro s v && !enc then .rewriteErr else .ok
+
+/-- `ValidateRequestBody` with the option `SkipSettingDefaults` (`ds = false` ⇔ defaults are skipped) -/
+def validateRequestBodyD (reg : List (Str × DecK)) (rb : ReqBody) (ct : Str) (b : BodyIn) (exro ds : Bool) : Outcome :=
+  if b.text = [] then (if rb.required then .missing else .ok)
+  else if rb.content = [] then .ok
+  else match contentGet rb.content ct with
+    | none => .badCT
+    | some mt =>
+      match mt.schema with
+      | none => .ok
+      | some s =>
+        match decodeBody reg ct s mt.encs b with
+        | .err => .decodeErr
+        | .panic => .panic
+        | .unmodelled => .unmodelled
+        | .val v => validateValue (hasEncoder (lookup (base ct) reg)) exro ds s v
 
 /-! ### Specification of the whole decision (from the property text) -/
 
@@ -1081,5 +1434,27 @@ def decodedValue (reg : List (Str × DecK)) (rb : ReqBody) (ct : Str) (b : BodyI
     match mt.schema with
     | none => none
     | some s => match decodeBody reg ct s mt.encs b with | .val v => some (s, v) | _ => none
+
+/-- class `NoBodyEncoder` (finding F-C06-4, C13's F-C13-8 seen from the verdict): default-setting is on, a default
+fires on the decoded value, and no body encoder is registered for the request's media type (everything but the
+JSON family): `ValidateRequestBody` fails with "rewriting failed" whatever the value is -/
+def exclNoBodyEncoder (reg : List (Str × DecK)) (rb : ReqBody) (ct : Str) (b : BodyIn) (exro ds : Bool) : Bool :=
+  ds && !hasEncoder (lookup (base ct) reg) &&
+  (match decodedValue reg rb ct b with
+   | some (s, v) => firesD exro s v
+   | none => false)
+
+/-- the request-side reading decides the verdict of this case also under default-setting -/
+def caseNeutral (reg : List (Str × DecK)) (rb : ReqBody) (ct : Str) (b : BodyIn) (exro ds : Bool) : Bool :=
+  !ds ||
+  (match decodedValue reg rb ct b with
+   | some (s, v) => defaultsNeutral exro s v
+   | none => true)
+
+/-- schema and decoded value are well-formed (distinct keys) -/
+def caseWF (reg : List (Str × DecK)) (rb : ReqBody) (ct : Str) (b : BodyIn) : Bool :=
+  match decodedValue reg rb ct b with
+  | some (s, v) => s.wf && v.wf
+  | none => true
 
 end KinModel.Body
